@@ -925,7 +925,7 @@ func genFlood(run *hx.Run, r *hx.Rand, nn int, expiry, long bool) {
 				w.exec(jev{K: "inject", Pkt: &jpkt{Src: hexOf(p.src), Dst: hexOf(p.dst), Msg: p.m}})
 			}
 		}
-		if r.Chance(1, 6) { // forged: same key, other content / empty origin / a node's own address as origin
+		if r.Chance(1, 4) { // forged: same key, other content / empty origin / a node's own address as origin
 			dst := selfs[r.Intn(nn)]
 			fm := jmsg{Origin: hexb(0xDD), ID: 7, Gid: G, Data: hexb(1)}
 			switch r.Intn(3) {
